@@ -22,6 +22,9 @@ def rpath(r, maxlen=8, allow_slash=True):
         p = p.replace('/', '_')
     if p.startswith('/'):
         p = 'a' + p
+    # long names with dozens of characters that need escaping (decided from the path itself: the random stream stays as it was)
+    if sum(map(ord, p)) % 11 == 0:
+        p = p * (5 + len(p) % 20)
     return p
 
 
